@@ -1601,6 +1601,20 @@ func (ex *explorer) doCall(st *State, in ssa.Instruction, c *ssa.CallCommon, val
 			bindings = calleeT.Args
 		}
 	}
+	// a bound method value of an interface (v.M passed as a function) called later is an invocation of M on the
+	// receiver bound at that time: same event as v.M(args) written directly
+	if calleeT != nil && calleeT.Op == "closure" && calleeT.Fn != nil && len(calleeT.Args) == 1 && strings.HasPrefix(calleeT.Fn.Synthetic, "bound method wrapper") {
+		if m, isM := calleeT.Fn.Object().(*types.Func); isM {
+			if sig, isS := m.Type().(*types.Signature); isS && sig.Recv() != nil && types.IsInterface(sig.Recv().Type()) {
+				iargs := append([]*Term{calleeT.Args[0]}, args...)
+				r := &Term{Op: "call", Aux: site + f.id, Args: append([]*Term{{Op: "method", Aux: m.Name(), Meth: m}}, iargs...)}
+				ex.emit(st, Step{Kind: KCall, Instr: in, Method: m, A: iargs, R: r})
+				bind(r)
+				ex.havocArgs(st, iargs[1:], site)
+				return false
+			}
+		}
+	}
 	if fn != nil && ex.canInlineAt(st, fn, site) {
 		ex.pushFrame(st, fn, args, bindings, site, blk, idx+1, val, false, in, c.StaticCallee())
 		return true
